@@ -178,9 +178,16 @@ def h_lifecycle(sym):
         devs.append([k, pos, False])
     errors_injected = 0
     closes = 0
+    # an application observer that subscribes LATE (at a solver-chosen step) must see every event from then on
+    obs_at = sym.int('observer_at', 0, sym.B['max_pos']) if sym.B.get('observer') else None
+    late, mark = [], [None]
     w.user(lambda: cf.open_link('fake://0'))
     n = 0
     while True:
+        if obs_at is not None and mark[0] is None and obs_at == n:
+            mark[0] = len(w.ev)
+            for nm in NAMES:
+                getattr(cf, nm).add_callback(lambda *a, nm=nm: late.append(nm))
         for d in devs:
             if d[2] or d[0] == 'none':
                 continue
@@ -260,6 +267,9 @@ def h_lifecycle(sym):
     assert last == ['link_established', 'connected', 'fully_connected'], f'the same object could not connect again: {last}'
     assert cf.param.values['p']['a'] == '7'
     final_checks(sym, w)
+    if mark[0] is not None:
+        assert late == w.ev[mark[0]:], f'an observer registered at step {obs_at} missed or reordered events: {late} vs {w.ev[mark[0]:]}'
+        sym.goal('late-observer')
     sym.goal('reconnected')
 
 
@@ -352,6 +362,9 @@ HARNESSES = [
             symbolic=False, goals=_G1, note='solver enumerates (kind, position) of one deviation; everything else is concrete'),
     Harness('lifecycle[1,v2,extended]', h_lifecycle, quick=dict(deviations=1, kinds=ALL, max_pos=28, extended=True), timeout=(600, 1800),
             symbolic=False, goals=('faulted', 'reconnected'), note='parameter table with an extended (persistent) entry: extended-type fetcher task'),
+    Harness('lifecycle[1,observer]', h_lifecycle, quick=dict(deviations=1, kinds=['none', 'error-from-driver', 'error-in-send', 'close_link'], max_pos=16, observer=True),
+            timeout=(900, 2400), symbolic=False, goals=('late-observer', 'reconnected'),
+            note='as lifecycle[1,v2] plus an application observer subscribing at a solver-chosen step'),
     Harness('lifecycle[1,v1]', h_lifecycle, quick=dict(deviations=1, kinds=['none'] + ALL, max_pos=24, version=3), timeout=(600, 1800),
             symbolic=False, goals=('fully-connected', 'faulted', 'reconnected'), note='legacy protocol generation'),
 ] + [Harness(f'lifecycle[2,{k}]', h_lifecycle, quick=dict(deviations=2, kinds0=[k], kinds=ALL, max_pos=20),
